@@ -71,8 +71,20 @@ let snapshot (st : state) : string array =
         let proto (s : store) : store =
           let keep p = (match p with x :: _ -> seg_name x = "protocols" | [] -> false) in
           { leaves = List.filter (fun (p, _) -> keep p) s.leaves; conts = List.filter keep s.conts } in
-        if show_store (proto d) = show_store (proto st.running) then "run" else "other") |]
-let comp_names = [| "R"; "S"; "F"; "C"; "L"; "V"; "W"; "N"; "D" |]
+        if show_store (proto d) = show_store (proto st.running) then "run" else "other");
+     (* H: sharing between configuration objects.  Whole objects: equal object ids.  Below that the only
+        sub-object deepCopyConfig carries over by reference is the MSS clamp spec of a subinterface
+        (hiddenSubif.MSSClamp, copy.go): shared wherever both configurations have it. *)
+     (let shared (a : store) (ao : n) (b : store) (bo : n) : string =
+        if ao = bo then "ALL" else begin
+          let clamp c = (match List.rev c with x :: _ -> seg_name x = "~mssclamp" | [] -> false) in
+          let l = List.filter (fun c -> clamp c && List.mem c b.conts) a.conts in
+          match List.sort compare (List.map string_of_path l) with [] -> "-" | l -> String.concat "," l
+        end in
+      let sess = List.sort compare (List.map (fun s -> (show_sid s.s_id, s)) st.sessions) in
+      String.concat "+" (List.map (fun (_, s) -> "c:" ^ shared s.s_cand s.s_oid st.running st.running_oid) sess
+                         @ ["s:" ^ shared st.startup st.startup_oid st.running st.running_oid])) |]
+let comp_names = [| "R"; "S"; "F"; "C"; "L"; "V"; "W"; "N"; "D"; "H" |]
 let show_res = function
   | RId x -> show_sid x | ROk -> "ok" | RLocked -> "locked" | RNoSession -> "nosession" | RNoHandler -> "nohandler"
   | RInvalid -> "invalid" | RSetFail -> "setfail" | RCycle -> "cycle" | RDepMissing -> "depmissing" | RDepErr -> "deperr"
